@@ -40,7 +40,7 @@ func runC16(r *Run, p *Prog) {
 		return
 	}
 	// thread classes
-	S := cg.Reach(ro.Serving, false)
+	S := cg.Reach(ro.ServingOrig, false)
 	var hroots, xroots []*ssa.Function
 	for _, f := range fns {
 		for _, t := range cg.GoTargs[f] {
